@@ -60,6 +60,15 @@ Proof.
   end; intros [= ]; subst; reflexivity.
 Qed.
 
+Lemma inv_clobber E g reg pc stacks m : Inv E (reg, pc, 0, stacks, m) -> Inv E (clobber g reg, pc, 0, stacks, m).
+Proof.
+  intros HI. unfold clobber, set_reg.
+  assert (S : forall reg d v, Inv E (reg, pc, 0, stacks, m) -> 0 <= d <= 9 -> Inv E (upd reg d (v mod 2 ^ 64), pc, 0, stacks, m)).
+  { intros rg d v H Hd9. pose proof H as (Hpc & _ & _ & Hf & Hm & _).
+    apply (inv_set_reg E rg pc 0 stacks m stacks d _ pc m H Hf); try reflexivity; try assumption. apply mod64_range. }
+  repeat apply S; try lia. exact HI.
+Qed.
+
 Section Run.
 Variable E : ienv.
 Hypothesis Hb : bytes_ok (e_prog E).
@@ -71,15 +80,6 @@ Hypothesis Hprog : forall k, In k (starts (e_prog E)) ->
   (opc (insn_at (e_prog E) k) = op_call ->
      src (insn_at (e_prog E) k) = 0 /\ e_helpers E (u32 (imm (insn_at (e_prog E) k))) <> None) /\
   (opc (insn_at (e_prog E) k) mod 8 = 0 -> 0 <= imm (insn_at (e_prog E) k)).
-
-Lemma inv_clobber g reg pc stacks m : Inv E (reg, pc, 0, stacks, m) -> Inv E (clobber g reg, pc, 0, stacks, m).
-Proof.
-  intros HI. unfold clobber, set_reg.
-  assert (S : forall reg d v, Inv E (reg, pc, 0, stacks, m) -> 0 <= d <= 9 -> Inv E (upd reg d (v mod 2 ^ 64), pc, 0, stacks, m)).
-  { intros rg d v H Hd9. pose proof H as (Hpc & _ & _ & Hf & Hm & _).
-    apply (inv_set_reg E rg pc 0 stacks m stacks d _ pc m H Hf); try reflexivity; try assumption. apply mod64_range. }
-  repeat apply S; try lia. exact HI.
-Qed.
 
 Theorem jit_steps_refine clob fuel : forall reg R pc stacks m r m',
   Inv E (reg, pc, 0, stacks, m) -> jrel reg R -> R 10 = e_mem_base E ->
@@ -108,7 +108,7 @@ Proof.
     destruct (jit_call_sim (clob f) E _ reg R (pc + 1) m fh Hr Hrel He (vf_wf E pc V) Ho Hsrc Hf) as (R' & Hj & Hrel' & H10').
     rewrite Hj.
     pose proof (step_preserves E Hb Hacc He _ _ HI Hs0) as HI'.
-    apply (IH _ R' (pc + 1) st2 m r m' (inv_clobber _ _ _ _ _ HI') Hrel'); [congruence|exact H].
+    apply (IH _ R' (pc + 1) st2 m r m' (inv_clobber E _ _ _ _ _ HI') Hrel'); [congruence|exact H].
   - assert (NH : is_helper_call (insn_at (e_prog E) pc) = false).
     { unfold is_helper_call. destruct (Z.eqb_spec (opc (insn_at (e_prog E) pc)) op_call); [contradiction|reflexivity]. }
     rewrite NH in H.
@@ -174,4 +174,23 @@ Proof.
   assert (NH : is_helper_call (insn_at (e_prog E) pc) = false).
   { unfold is_helper_call. destruct (Z.eqb_spec (opc (insn_at (e_prog E) pc)) op_call) as [Q|_]; [now destruct (Hn pc)|reflexivity]. }
   rewrite NH. destruct (isa_step E (reg, pc, fidx, stacks, m)) as [[[[[[reg' pc'] f'] st'] m']|v mv]|e|x|]; try reflexivity. apply IH.
+Qed.
+
+(** C03 in the property's own terms, for the programs that make no call: when the registers the prologue leaves untouched
+    happen to hold what the interpreter starts with (zero), the compiled code returns what the interpreter -- the
+    regenerated interpreter.rs -- returns, and leaves the same memory *)
+Theorem jit_equals_interpreter E m0 clob fuel R0 r m' :
+  bytes_ok (e_prog E) -> acc (e_prog E) -> env_ok E -> mem_ok m0 -> d7_free E ->
+  (forall k, opc (insn_at (e_prog E) k) <> op_call) ->
+  (forall k, In k (starts (e_prog E)) -> opc (insn_at (e_prog E) k) mod 8 = 0 -> 0 <= imm (insn_at (e_prog E) k)) ->
+  (forall x, 0 <= R0 x < 2 ^ 64) -> R0 10 = e_mem_base E -> regs_of R0 = isa_init_regs E ->
+  Interp.run fuel E m0 = ODone r m' ->
+  jit_steps clob fuel E (R0, 0, m0) = ODone r m'.
+Proof.
+  intros Hb Ha He Hm Hd Hn Hi HR H10 Hregs H.
+  rewrite (interp_refines_isa E m0 fuel Hb Ha He Hm Hd) in H. unfold isa_run in H. rewrite <- Hregs in H.
+  apply (jit_run_refines E m0 clob fuel R0 r m' Hb Ha He Hm); try assumption.
+  - intros k Hk. split; [intros Q; now destruct (Hn k)|now apply Hi].
+  - assert (Q : nth 10 (regs_of R0) 0 = nth 10 (isa_init_regs E) 0) by (now rewrite Hregs). exact Q.
+  - rewrite isa_steps_c_nocall by exact Hn. exact H.
 Qed.
